@@ -13,7 +13,7 @@ RULE = ('engine scenarios biased to streams that end (exit / close / hang-up) or
         '(naive model); after EOF pending is empty and later calls are EOF again within 0.5 virtual s, never TIMEOUT, never a '
         'hang; on an EOF/TIMEOUT outcome, listed or raised, before is all the pending text (C04.bookkeeping); transport errors that are '
         'not end-of-stream (socket reset) pass through unchanged. Generator additions as for C01-C03 (attribute changes between calls, '
-        'EINTR, > 1024 descriptors, ignorecase). Ninth round: the fault kind interrupt (an exception from outside -- Ctrl-C, a raising signal handler -- abandons the call where it really waits: select/poll/recv/sleep/waitpid; the application goes on using the object) ; long patterns (their text is quoted in the EOF/TIMEOUT diagnostics); negative timeouts; spawn.eof() after every operation (C04.eof_flag: true from the first EOF outcome on, never while the stream has not ended). Non-trivial: >=1 read consumed or fault fired; distinct by trace digest')
+        'EINTR, > 1024 descriptors, ignorecase). Ninth round: the fault kind interrupt (an exception from outside -- Ctrl-C, a raising signal handler -- abandons the call where it really waits: select/poll/recv/sleep/waitpid; the application goes on using the object) ; long patterns (their text is quoted in the EOF/TIMEOUT diagnostics); negative timeouts; spawn.eof() after every operation (C04.eof_flag: true from the first EOF outcome on, never while the stream has not ended). Tenth round: fdspawn over a terminal device (non-canonical, VMIN 0; hang-up as empty reads or as EIO). Non-trivial: >=1 read consumed or fault fired; distinct by trace digest')
 
 
 def spec(pid):
